@@ -55,7 +55,12 @@ TrCJacEnd ==
   /\ CJacEnd
   /\ Consume
   \* no Jacobian unless the cache is present and every derivative evaluated (C03/C09)
-  /\ G({"C09", "C03"}, Ev.present = CJacPresent)
+  /\ G({"C09", "C03"}, Ev.present => CJacPresent)
+  \* a problem with a present cache delivers its Jacobian, whatever its history (C10), in particular
+  \* the problem a fit handed back (C04: the final problem, C02: one single state)
+  /\ G({"C10", "C04", "C02", "C09"}, CJacDue => Ev.present)
+  \* ... and it is the Jacobian of a freshly built problem at the same parameters
+  /\ G({"C10", "C04", "C02"}, Ev.fresh)
 
 TrFitStart ==
   /\ Is("FitStart")
@@ -80,6 +85,9 @@ EndGuards ==
         /\ Ev.objrank = Ev.frank[acc + 1]
         /\ Ev.frank[acc + 1] <= Ev.frank[aid0 + 1])
   /\ G({"C09"}, seenNone => (~Ev.ok /\ Ev.term = "User"))
+  \* truthfulness of the failure report: the optimizer gives up with "User" only after it has
+  \* really been handed an absent value
+  /\ G({"C04", "C09"}, Ev.term = "User" => seenNone)
   /\ StateGuards({"C09", "C02"})
   \* C05: on certified instances the harness digests the numerical facts
   /\ G({"C05"}, Ev.certified => (Ev.ok /\ Ev.noworse /\ Ev.orth /\ Ev.reproduces))
